@@ -215,3 +215,125 @@ Example C17_quantize_examples :
   quantize_exp (mkdec true 1 (-3)) (-2) = mkdec true 0 (-2) /\
   quantize_exp (mkdec false 1 3) 0 = mkdec false 1000 0.
 Proof. vm_compute. auto. Qed.
+
+(* ---------------------------------------------------------------------------------------------------------------
+   Tie by translation: Gen/SrcNumberify.v is regenerated on every run from the SOURCE of beanquery/numberify.py
+   (harness/vf/src_numberify.py).  Interpreting the translated bodies (Model/PyMini.v) on the encoded values of
+   Model/PrimsNumberify.v (which also fixes what every primitive is assumed to do) yields, for every well-typed input,
+   exactly the model functions the theorems above are stated over.  call_ref: opaque callables (here: the class
+   constructors); f: the formatter (None or any function). *)
+From Coq Require Import String.
+From Verif Require Import Model.PyMini Model.PrimsNumberify Gen.SrcNumberify Proofs.SrcNumberify.
+
+Theorem C17_source_identity_converter : forall (call_ref : nat -> list pv -> pv) (f : option (dec -> currency -> dec))
+    (name : str) (dt : dtype) (idx : nat) (r : crow) (df : pv),
+  (idx < List.length r)%nat ->
+  call_method call_ref (num_prims0 f) conv_identity_call (id_fields name dt idx) [enc_row r; df] =
+  Ok (id_fields name dt idx, enc_cell (apply_conv f (KId name dt idx) r)).
+Proof. exact identity_call_src. Qed.
+Print Assumptions C17_source_identity_converter.
+
+Theorem C17_source_amount_converter : forall (call_ref : nat -> list pv -> pv) (f : option (dec -> currency -> dec))
+    (name : str) (idx : nat) (cur : currency) (r : crow),
+  (idx < List.length r)%nat -> cell_ok DAmount (cellat idx r) = true ->
+  call_method call_ref (num_prims0 f) conv_amount_call (cv_fields name idx cur) [enc_row r; enc_dformat f] =
+  Ok (cv_fields name idx cur, enc_cell (apply_conv f (KConv name DAmount idx cur) r)).
+Proof. exact amount_call_src. Qed.
+Print Assumptions C17_source_amount_converter.
+
+Theorem C17_source_position_converter : forall (call_ref : nat -> list pv -> pv) (f : option (dec -> currency -> dec))
+    (name : str) (idx : nat) (cur : currency) (r : crow),
+  (idx < List.length r)%nat -> cell_ok DPosition (cellat idx r) = true ->
+  call_method call_ref (num_prims0 f) conv_position_call (cv_fields name idx cur) [enc_row r; enc_dformat f] =
+  Ok (cv_fields name idx cur, enc_cell (apply_conv f (KConv name DPosition idx cur) r)).
+Proof. exact position_call_src. Qed.
+Print Assumptions C17_source_position_converter.
+
+Theorem C17_source_inventory_converter : forall (call_ref : nat -> list pv -> pv) (f : option (dec -> currency -> dec))
+    (name : str) (idx : nat) (cur : currency) (r : crow),
+  (idx < List.length r)%nat -> cell_ok DInventory (cellat idx r) = true ->
+  call_method call_ref (num_prims0 f) conv_inventory_call (cv_fields name idx cur) [enc_row r; enc_dformat f] =
+  Ok (cv_fields name idx cur, enc_cell (apply_conv f (KConv name DInventory idx cur) r)).
+Proof. exact inventory_call_src. Qed.
+Print Assumptions C17_source_inventory_converter.
+
+(* __init__: which constructor argument ends up in which field (the fields the __call__ theorems start from) *)
+Theorem C17_source_converter_init : forall (call_ref : nat -> list pv -> pv) (prim : string -> list pv -> PyMini.res pv)
+    (a b c : pv),
+  call_method call_ref prim conv_identity_init [] [a; b; c] = Ok ([("name", a); ("dtype", b); ("index", c)]%string, PNone) /\
+  call_method call_ref prim conv_amount_init [] [a; b; c] = Ok ([("name", a); ("index", b); ("currency", c)]%string, PNone) /\
+  call_method call_ref prim conv_position_init [] [a; b; c] = Ok ([("name", a); ("index", b); ("currency", c)]%string, PNone) /\
+  call_method call_ref prim conv_inventory_init [] [a; b; c] = Ok ([("name", a); ("index", b); ("currency", c)]%string, PNone).
+Proof. exact inits_src. Qed.
+Print Assumptions C17_source_converter_init.
+
+(* the census functions: count per currency in a defaultdict, sorted by (count, name) descending, one converter each;
+   ctor_conv k dt: calling class number k builds the converter object of datatype dt *)
+Theorem C17_source_census_amount : forall (call_ref : nat -> list pv -> pv) (f : option (dec -> currency -> dec))
+    (name : str) (rows : list crow) (idx : nat),
+  ctor_conv call_ref 2 DAmount -> col_ok DAmount idx rows ->
+  call_function call_ref (num_prims1 call_ref f) census_amount [enc_str name; enc_rows rows; enc_idx idx] =
+  Ok (PList (map enc_conv (convert_col name DAmount rows idx))).
+Proof. exact census_amount_src. Qed.
+Print Assumptions C17_source_census_amount.
+
+Theorem C17_source_census_position : forall (call_ref : nat -> list pv -> pv) (f : option (dec -> currency -> dec))
+    (name : str) (rows : list crow) (idx : nat),
+  ctor_conv call_ref 4 DPosition -> col_ok DPosition idx rows ->
+  call_function call_ref (num_prims1 call_ref f) census_position [enc_str name; enc_rows rows; enc_idx idx] =
+  Ok (PList (map enc_conv (convert_col name DPosition rows idx))).
+Proof. exact census_position_src. Qed.
+Print Assumptions C17_source_census_position.
+
+Theorem C17_source_census_inventory : forall (call_ref : nat -> list pv -> pv) (f : option (dec -> currency -> dec))
+    (name : str) (rows : list crow) (idx : nat),
+  ctor_conv call_ref 6 DInventory -> col_ok DInventory idx rows ->
+  call_function call_ref (num_prims1 call_ref f) census_inventory [enc_str name; enc_rows rows; enc_idx idx] =
+  Ok (PList (map enc_conv (convert_col name DInventory rows idx))).
+Proof. exact census_inventory_src. Qed.
+Print Assumptions C17_source_census_inventory.
+
+(* the driver, end to end: numberify_results on a well-typed table = Numberify.numberify_core (description and rows);
+   the census functions are reached through CONVERTING_TYPES, the converters are called as objects *)
+Theorem C17_source_driver : forall (call_ref : nat -> list pv -> pv) (f : option (dec -> currency -> dec))
+    (cols : list column) (rows : list crow),
+  ctors_ok call_ref -> well_typed cols rows = true ->
+  call_function call_ref (num_prims2 call_ref f) numberify_driver [enc_columns cols; enc_rows rows; enc_dformat f] =
+  Ok (PTuple [PTuple (map enc_column (fst (numberify_core f cols rows)));
+              PList (map enc_row (snd (numberify_core f cols rows)))]).
+Proof. exact driver_src. Qed.
+Print Assumptions C17_source_driver.
+
+(* the generated data the statements above mention by number *)
+Theorem C17_source_tables :
+  map snd refs = ["beanquery.numberify.IdentityConverter"; "beanquery.Column"; "beanquery.numberify.AmountConverter";
+                  "lambda:census_amount_lambda0"; "beanquery.numberify.PositionConverter"; "lambda:census_position_lambda0";
+                  "beanquery.numberify.InventoryConverter"; "lambda:census_inventory_lambda0";
+                  "beanquery.numberify.convert_col_Amount"; "beanquery.numberify.convert_col_Position";
+                  "beanquery.numberify.convert_col_Inventory"]%string /\
+  map fst refs = seq 0 11 /\
+  converting_types = [(enc_dtype DAmount, 8%nat); (enc_dtype DPosition, 9%nat); (enc_dtype DInventory, 10%nat)] /\
+  functions = [(8%nat, census_amount); (9%nat, census_position); (10%nat, census_inventory)] /\
+  lambdas = [(3%nat, census_amount_lambda0); (5%nat, census_position_lambda0); (7%nat, census_inventory_lambda0)] /\
+  converter_dtypes = [("IdentityConverter", None); ("AmountConverter", Some (enc_dtype DDecimal));
+                      ("PositionConverter", Some (enc_dtype DDecimal)); ("InventoryConverter", Some (enc_dtype DDecimal))]%string.
+Proof. exact tables_src. Qed.
+Print Assumptions C17_source_tables.
+
+(* Non-vacuity: a constructor oracle meeting ctors_ok, and the translated driver run by the interpreter on the table of
+   C17_example (one Inventory column, one plain column, three rows). *)
+Example C17_source_driver_example :
+  let usd := [85; 83; 68] in let aapl := [65; 65; 80; 76] in
+  let lot n c := mkpos (mkamt (mkdec false n 0) c) None in
+  let cols := [([105], DInventory); ([110], DPlain 0)] in
+  let rows := [[CInventory [lot 5 aapl; lot 7 usd; lot 2 aapl]; CPlain (VInt 1)]; [cnull; CPlain (VInt 2)];
+               [CInventory [lot 3 usd]; cnull]] in
+  ctors_ok example_call_ref /\ well_typed cols rows = true /\
+  call_function example_call_ref (num_prims2 example_call_ref None) numberify_driver
+    [enc_columns cols; enc_rows rows; PNone] =
+  Ok (PTuple [PTuple (map enc_column [([105; 32; 40; 85; 83; 68; 41], DDecimal); ([105; 32; 40; 65; 65; 80; 76; 41], DDecimal);
+                                      ([110], DPlain 0)]);
+              PList (map enc_row [[CPlain (VDec (mkdec false 7 0)); CPlain (VDec (mkdec false 7 0)); CPlain (VInt 1)];
+                                  [cnull; cnull; CPlain (VInt 2)];
+                                  [CPlain (VDec (mkdec false 3 0)); cnull; cnull]])]).
+Proof. split; [exact example_ctors_ok|]. split; vm_compute; reflexivity. Qed.
